@@ -124,9 +124,10 @@ class LinHooks:
                 r = t
                 while isinstance(r, ast.Subscript):
                     r = r.value
-                if r is not t and isinstance(r, ast.Name):
-                    per[r.id] = per.get(r.id, 0) + 1
-                    self.store_ord[id(t)] = per[r.id]
+                if r is not t and (isinstance(r, ast.Name) or (isinstance(r, ast.Attribute) and isinstance(r.value, ast.Name))):
+                    rn = r.id if isinstance(r, ast.Name) else '%s.%s' % (r.value.id, r.attr)
+                    per[rn] = per.get(rn, 0) + 1
+                    self.store_ord[id(t)] = per[rn]
         for s in self.sites:
             if 'of' in s and per.get(s['container'], 0) != s['of']:
                 raise E.Unsupported('store anchors drifted: %d stores into `%s`, the contract was written for %d' % (per.get(s['container'], 0), s['container'], s['of']))
@@ -211,12 +212,12 @@ class LinHooks:
         while isinstance(cur, ast.Subscript):
             keys.append(eng.ev(st, cur.slice))
             cur = cur.value
-        if not isinstance(cur, ast.Name):
+        if not isinstance(cur, ast.Name) and not (isinstance(cur, ast.Attribute) and isinstance(cur.value, ast.Name)):
             return None, None
         keys.reverse()
         ks = [eng.to_V(x) for x in keys]
         kt = ks[0] if len(ks) == 1 else eng.uf('keypath%d' % len(ks), *([V] * len(ks) + [V]))(*ks)
-        return cur.id, kt
+        return (cur.id if isinstance(cur, ast.Name) else '%s.%s' % (cur.value.id, cur.attr)), kt
 
     def getitem(self, eng, st, o, k, node):
         if isinstance(node.value, ast.Subscript):
@@ -224,6 +225,13 @@ class LinHooks:
             if nm in self.vector_dicts:
                 last = (st.__dict__.get('_lin_last') or {}).get(nm)
                 if last is not None and z3.eq(last[0], kt):
+                    return last[1]
+            return NotImplemented
+        if isinstance(node.value, ast.Attribute) and isinstance(node.value.value, ast.Name):
+            nm = '%s.%s' % (node.value.value.id, node.value.attr)
+            if nm in self.vector_dicts:
+                last = (st.__dict__.get('_lin_last') or {}).get(nm)
+                if last is not None and z3.eq(last[0], eng.to_V(k)):
                     return last[1]
             return NotImplemented
         if isinstance(node.value, ast.Name):
@@ -261,6 +269,24 @@ class LinHooks:
                     st.env[nm] = E.Obj(eng.fresh('upd_' + nm, V), cls='dict', taint=getattr(st.env.get(nm), 'taint', E.FALSE))
                 finally:
                     eng._in_store = False
+                return True
+            return NotImplemented
+        if isinstance(tgt.value, ast.Attribute) and isinstance(tgt.value.value, ast.Name):
+            nm = '%s.%s' % (tgt.value.value.id, tgt.value.attr)
+            for site in self.sites:
+                if site['container'] != nm or not self._applies(site, tgt):
+                    continue
+                t, facts = eng.spec(site['spec'], st, {'__arg': val, '__key': k}, mode='prove')
+                s2 = st.fork()
+                for x in facts:
+                    s2.assume(x)
+                eng.oblige(s2, 'site/%s@L%d' % (site['name'], node.lineno), t, kind='store-site')
+                st.ghost['n_site_' + site['name']] = st.ghost.get('n_site_' + site['name'], z3.IntVal(0)) + 1
+            if nm in self.vector_dicts and isinstance(val, LinV):
+                d = dict(st.__dict__.get('_lin_last') or {})
+                d[nm] = (eng.to_V(k), val)
+                st._lin_last = d
+                eng.store_item(st, tgt.value, o, k, E.Obj(self.canon(eng, val), taint=val.taint), node)
                 return True
             return NotImplemented
         if isinstance(tgt.value, ast.Name):
